@@ -10,13 +10,25 @@ _RECTS = {"rect2x2": _blocks(4), "rect2x3": _blocks(6), "rect3x2": _blocks(6), "
           "rect3x3": _blocks(9)}
 
 
-def _exh_configs(quick_frac, thorough_frac, line8=True):
-    """quick_frac / thorough_frac: dict config -> fraction of the blocks (default 1.0 = the complete enumeration)"""
+# level-map configs (every map cells -> {0..L-1}): name -> ((blocks, inputs per block) quick, (blocks, inputs per block) thorough);
+# must match exh_rect_lv / exh_line_lv in c14_exh.cpp
+_LV = {"line9_lv": ((3 ** 3, 3 ** 6), (3 ** 3, 3 ** 6)), "line10_lv": ((3 ** 4, 3 ** 6), (3 ** 4, 3 ** 6)),
+       "line11_lv": ((3 ** 5, 3 ** 6), (3 ** 5, 3 ** 6)), "line12_lv": ((3 ** 6, 3 ** 6), (3 ** 6, 3 ** 6)),
+       "rect3x4_lv": ((3 ** 4, 3 ** 8), (3 ** 4, 3 ** 8)), "rect4x3_lv": ((3 ** 4, 3 ** 8), (3 ** 4, 3 ** 8)),
+       "rect4x4_lv": ((2 ** 4, 2 ** 12), (3 ** 7, 3 ** 9))}
+
+
+def _exh_configs(quick_frac, thorough_frac, lv_default=1.0):
+    """quick_frac / thorough_frac: dict config -> fraction of the blocks (default 1.0 = the complete enumeration;
+    lv_default for the level-map configs)"""
     cfg = {}
     for name, nb in list(_LINES.items()) + list(_RECTS.items()):
         q = max(1, int(nb * quick_frac.get(name, 1.0))) if quick_frac.get(name, 1.0) > 0 else 0
         t = max(1, int(nb * thorough_frac.get(name, 1.0))) if thorough_frac.get(name, 1.0) > 0 else 0
         cfg[name] = {"quick": q, "thorough": t}
+    for name, ((qb, _), (tb, _)) in _LV.items():
+        qf, tf = quick_frac.get(name, lv_default), thorough_frac.get(name, lv_default)
+        cfg[name] = {"quick": max(1, int(qb * qf)) if qf > 0 else 0, "thorough": max(1, int(tb * tf)) if tf > 0 else 0}
     return cfg
 
 
@@ -27,24 +39,42 @@ SPEC = {
     "property": "C14",
     "rule": "exhaustive part: a case is one block of weak orders of the cells of a shape (k distinct levels, levels of the first p cells "
             "fixed); the blocks of a config partition ALL weak orders of that shape (lines of 1..8 cells, rectangles 2x2, 2x3, 3x2, 2x4, "
-            "4x2, 3x3); ranks are mapped to dyadic values by a per-case increasing affine map. random part: rectangles 2..12 x 2..12 (a side "
-            "of exactly 2 over-weighted), 2xn / nx2 up to n=40, batches of heavily tied 3x3..5x4 rectangles, batches of random 3x3 weak "
-            "orders, 13..48-sided rectangles, lines of 0..200 samples; values on dyadic grids generated iid / as tied permutations / as "
-            "random walks / two-level; Filtration_value in {double, float, int}, Index in {unsigned, size_t, int, long}; the line routine "
-            "on vector/list/deque ranges with std::less, std::greater (negated input) and a lexicographic comparator on (value, position). "
+            "4x2, 3x3); configs *_lv: a case is one block of level maps cells -> {0..L-1} (levels of the first p cells fixed), the blocks "
+            "partition ALL level maps, i.e. every weak order with at most L levels, of the 3x4 and 4x3 rectangles (L=3), of the 4x4 "
+            "rectangle (L=2 quick, L=3 thorough) and of lines of 9..12 cells (L=3); ranks are mapped to dyadic values by a per-case "
+            "increasing affine map, and in a quarter of the blocks the top level is +inf and / or the bottom level -inf. random part: "
+            "rectangles 2..12 x 2..12 (a side of exactly 2 over-weighted), 2xn / nx2 up to n=40, batches of heavily tied 3x3..5x4 "
+            "rectangles, batches of random 3x3 weak orders, 13..48-sided rectangles, rectangles with a side in 100..300, rectangles "
+            "with as many cells as an 8-bit Index can represent (<= 255 unsigned char, <= 127 signed char), lines of 0..200 samples, "
+            "nested (0 9 1 8 2 7 ...) and random-walk lines of 201..3000 samples; values on dyadic grids generated iid / as tied "
+            "permutations / as random walks / two-level; with probability 1/4 the top level is +inf and / or the bottom level -inf "
+            "(floating value types), with probability 1/4 the zeros get random signs (+0.0 / -0.0 ties); Filtration_value in {double, "
+            "float, int, unsigned, long long, a struct offering operator< only}, Index in {unsigned, size_t, int, long, unsigned long "
+            "long, unsigned short (up to 65535 cells), unsigned char, signed char}; the line routine on vector/list/deque ranges, on a by-value "
+            "boost transformed counting range (prvalue iterators, what the Python binding passes) and on a single-pass istream_iterator "
+            "range, element types double, float, int, long, with std::less, std::greater (negated input), the default comparator, a "
+            "lexicographic comparator on (value, position) and a comparator on the value of (value, tag) elements (a strict weak order "
+            "that is not total). Unit random_dbg is the randomised part built WITHOUT -DNDEBUG: a std::logic_error thrown by one of the "
+            "routines' own GUDHI_CHECK lines is a violation (*.debug_check_failed), a failed assert() a crash. "
             "For every input both output modes (values, indices) are run and the emitted pairs are compared with the lower-star diagram "
-            "of the doubled-grid cell model reduced over Z_2: equal multisets of non-zero-length (dim, birth, death); emitted zero-length "
-            "pairs must be diagonal points the filtration has; birth <= death; returned minimum (value, or value at the returned index) "
-            "= global minimum; indices in range; no cell index is the birth of two non-zero 0-classes or the death of two non-zero "
-            "1-classes; line: last call is (minimum, infinity), nothing on an empty input. non-trivial = the model diagram of the input (of "
-            "at least one input of the block / batch) has a finite non-zero-length interval; distinct by hash of the input values "
-            "(blocks: by shape and block number, plus up to 32 inputs per block)",
-    "assumptions": ["n_rows, n_cols >= 2 for the rectangle routine (its documented domain); finite values only (no inf / NaN)",
+            "of the doubled-grid cell model reduced over Z_2: equal multisets of non-zero-length (dim, birth, death), a pair (b, +inf) "
+            "coming from a +inf cell being an ordinary pair; emitted zero-length pairs must be diagonal points the filtration has; "
+            "birth <= death; returned minimum (value, or value at the returned index) = global minimum; indices in range; no cell index "
+            "is the birth of two non-zero 0-classes or the death of two non-zero 1-classes; line: last call is (minimum, "
+            "numeric_limits<T>::infinity()) (for integral T that is T(0): required in the last call only, all other calls judged as "
+            "values), nothing on an empty input, (value, tag) elements emitted are elements of the input. Rectangles with a side > 48 are "
+            "judged with the same cell model reduced with sorted-vector columns (compared with the map-based reduction on every 13..48 "
+            "rectangle), lines longer than 200 with an elder-rule union-find oracle (compared with the cell model on every line <= 200). "
+            "non-trivial = the model diagram of the input (of at least one input of the block / batch) has a non-zero-length paired "
+            "interval; distinct by hash of the input values (blocks: by shape and block number, plus up to 32 inputs per block)",
+    "assumptions": ["n_rows, n_cols >= 2 for the rectangle routine (its documented domain); no NaN (values may be +inf / -inf)",
                     "zero-length pairs emitted by the rectangle routine are accepted when they are diagonal points of the true diagram "
                     "(the function's documentation does not promise their absence; its callers filter them); they are counted",
-                    "int-valued lines are not run (std::numeric_limits<int>::infinity() is 0, the documented final call is then ambiguous)",
+                    "Index types are only instantiated on inputs whose number of cells they can represent (documented requirement)",
+                    "integral and single-pass (istream) inputs carry no infinite values (no representation / not parsed by operator>>)",
                     "trusted: harness/c14_line_rectangle/cubical_model.h + harness/oracle/zp_reduce.h (cross-checked against "
-                    "Bitmap_cubical_complex + Persistent_cohomology in config second_opinion)"],
+                    "Bitmap_cubical_complex + Persistent_cohomology in config second_opinion); its sorted-vector and elder-rule "
+                    "restatements are cross-checked against it at run time (check ids harness.model_*)"],
     "units": [
         # bulk of the enumeration: UBSan, -O2
         {"name": "exh", "src": ["c14_exh.cpp"], "variant": "ubsan", "chunk": 4,
@@ -52,36 +82,48 @@ SPEC = {
         # the same enumeration under ASan+UBSan on a sample of the blocks (all blocks of the small shapes)
         {"name": "exh_asan", "src": ["c14_exh.cpp"], "variant": "asan", "chunk": 4,
          "configs": _exh_configs({"line7": 0.5, "line8": 0, "rect2x4": 0.05, "rect4x2": 0.05, "rect3x3": 0.01},
-                                 {"line8": 0.1, "rect2x4": 0.2, "rect4x2": 0.2, "rect3x3": 0.03})},
+                                 {"line8": 0.1, "rect2x4": 0.2, "rect4x2": 0.2, "rect3x3": 0.03, "rect4x4_lv": 0.002}, lv_default=0.03)},
         {"name": "exh_gcc", "src": ["c14_exh.cpp"], "variant": "gnative", "chunk": 4, "tiers": ["thorough"],
-         "configs": _exh_configs({}, {"line8": 0.1, "rect2x4": 0.2, "rect4x2": 0.2, "rect3x3": 0.05})},
-        {"name": "random", "src": ["c14_random.cpp"], "variant": "asan", "chunk": 20,
+         "configs": _exh_configs({}, {"line8": 0.1, "rect2x4": 0.2, "rect4x2": 0.2, "rect3x3": 0.05, "rect4x4_lv": 0.002}, lv_default=0.03)},
+        {"name": "random", "src": ["c14_random.cpp", "c14_random_line.cpp"], "variant": "asan", "chunk": 20,
          "configs": {"rect_random": {"quick": 3000, "thorough": 300000}, "rect_thin": {"quick": 1500, "thorough": 100000},
                      "rect_small_ties": {"quick": 300, "thorough": 30000}, "rect3x3_sample": {"quick": 300, "thorough": 3000},
-                     "rect_big": {"quick": 24, "thorough": 3000}, "line_random": {"quick": 5000, "thorough": 600000}}},
+                     "rect_big": {"quick": 24, "thorough": 3000}, "line_random": {"quick": 6000, "thorough": 600000},
+                     "rect_narrow_index": {"quick": 600, "thorough": 60000}, "rect_huge": {"quick": 24, "thorough": 600},
+                     "line_long": {"quick": 600, "thorough": 60000}}},
+        # same sources WITHOUT -DNDEBUG: GUDHI_CHECK (std::logic_error "Bug in Gudhi ...") and assert() inside the two routines are live
+        {"name": "random_dbg", "src": ["c14_random.cpp", "c14_random_line.cpp"], "variant": "asan", "cflags": ["-UNDEBUG"], "chunk": 20,
+         "configs": {"rect_random": {"quick": 600, "thorough": 60000}, "rect_thin": {"quick": 300, "thorough": 30000},
+                     "rect_small_ties": {"quick": 40, "thorough": 4000}, "rect_narrow_index": {"quick": 100, "thorough": 10000},
+                     "rect_big": {"quick": 8, "thorough": 400}, "line_random": {"quick": 1500, "thorough": 150000},
+                     "line_long": {"quick": 60, "thorough": 6000}}},
         # same sources with the TBB code path of sort_edges (the shipped configuration defines GUDHI_USE_TBB)
         {"name": "random_tbb", "src": ["c14_random.cpp"], "variant": "asan", "defs": ["GUDHI_USE_TBB"], "libs": ["-ltbb"], "chunk": 20,
-         "configs": {"rect_random": {"quick": 600, "thorough": 60000}, "rect_big": {"quick": 24, "thorough": 3000}}},
+         "configs": {"rect_random": {"quick": 600, "thorough": 60000}, "rect_big": {"quick": 24, "thorough": 3000},
+                     "rect_huge": {"quick": 12, "thorough": 300}}},
         {"name": "second", "src": ["c14_second.cpp"], "variant": "asan", "chunk": 20,
          "configs": {"model_selftest": {"quick": 1, "thorough": 1}, "second_opinion": {"quick": 1500, "thorough": 150000}}},
     ],
     "floors": {},
     "exhaustive": {"quick": False, "thorough": True},
     "exhaustive_note": "thorough: unit 'exh' runs every block, i.e. every weak order of the cells, of lines of 1..8 cells and of the 2x2, 2x3, "
-                       "3x2, 2x4, 4x2 and 3x3 rectangles (counters weak_orders.* must equal the Fubini numbers, enforced as floors). quick: "
-                       "the same for lines <= 7 and all rectangles except 3x3, of which 20 % of the blocks are run. Exhaustive for "
-                       "those shapes only; everything else is sampled.",
+                       "3x2, 2x4, 4x2 and 3x3 rectangles (counters weak_orders.* must equal the Fubini numbers, enforced as floors), and every "
+                       "level map with 3 levels of the 3x4, 4x3 and 4x4 rectangles and of lines of 9..12 cells (counters level_maps.*, exact "
+                       "floors). quick: the same for lines <= 7 and all rectangles except 3x3, of which 20 % of the blocks are run, and "
+                       "4x4, which is enumerated with 2 levels. Exhaustive for those shapes (and numbers of levels) only; everything else "
+                       "is sampled.",
     "manifest": {
         "text": "Runtime monitor: the line routine and the rectangle routine are run (value mode and index mode, several value / index / "
-                "range types, three comparators for the line, with and without TBB) on every weak order of the cells of lines of up to 8 "
-                "cells and of the 2x2, 2x3, 3x2, 2x4, 4x2 and 3x3 rectangles, and on random lines up to 200 samples and rectangles up to "
-                "48x48 with many ties; each output is compared with an independent cell-by-cell model of the lower-star cubical "
+                "range types, five comparators for the line, with and without TBB, with and without NDEBUG) on every weak order of the cells "
+                "of lines of up to 8 cells and of the 2x2, 2x3, 3x2, 2x4, 4x2 and 3x3 rectangles, on every 3-level map of the 3x4, 4x3, "
+                "4x4 rectangles and of lines of 9..12 cells, and on random lines up to 3000 samples and rectangles up to 300x300 with "
+                "many ties, infinite values and signed zeros; each output is compared with an independent cell-by-cell model of the lower-star cubical "
                 "filtration reduced by textbook column reduction over Z_2 (equal multisets of non-zero intervals, correct global "
                 "minimum, admissible zero-length pairs, valid and non-repeated indices), under UBSan for the bulk and ASan+UBSan on "
                 "samples. Exhaustive for the listed small shapes (every leaf of the 8-neighbour decision tree is a floor), "
                 "held-on-what-was-observed beyond.",
         "note": "trusted: doubled-grid model + zp_reduce oracle (cross-checked at run time against Bitmap_cubical_complex + "
-                "Persistent_cohomology); finite values only; zero-length pairs tolerated when they are true diagonal points",
+                "Persistent_cohomology); no NaN; zero-length pairs tolerated when they are true diagonal points",
         "technique": "runtime monitoring: exhaustive enumeration of small inputs + randomized inputs against a reference-model oracle, "
                      "under UndefinedBehaviorSanitizer / AddressSanitizer",
     },
@@ -107,6 +149,12 @@ _q["weak_orders.line"] = sum(_F[n] for n in range(1, 8))
 _q["weak_orders.rect"] = _F[4] + 2 * _F[6] + 2 * _F[8] + _F[9] // 10
 _t["weak_orders.line"] = sum(_F[n] for n in range(1, 9))
 _t["weak_orders.rect"] = _F[4] + 2 * _F[6] + 2 * _F[8] + _F[9]
+# the complete level-map enumerations (unit exh; the sampled units add to it)
+for _name, ((_qb, _qn), (_tb, _tn)) in _LV.items():
+    _shape = _name[:-3]                      # "rect3x4" / "line9"
+    _key = "level_maps." + (_shape if _shape.startswith("rect") else "line" + _shape[4:])
+    _q[_key] = _qb * _qn
+    _t[_key] = _tb * _tn
 # every comparison pattern of an interior cell with its 8 neighbours and of a border cell with its 5 neighbours was presented
 # (quick run measures >= 1282 per nbr8 pattern and >= 24818 per nbr5 pattern)
 for _p in range(256):
@@ -128,11 +176,41 @@ _q.update({
     "weak_orders.with_ties": 1200000, "weak_orders.with_finite_interval": 800000, "weak_orders.with_dim1_interval": 120000,
     "expected.finite_dim0_intervals": 55000, "expected.finite_dim1_intervals": 9000, "emitted.zero_length_pairs": 250000,
     "cmp.second.generic_route_vs_model": 750, "cmp.model_selftest": 11, "inputs.second.rect": 500, "inputs.second.line": 180,
-    "types.double_unsigned": 7000, "types.double_size_t": 7000, "types.float_int": 7000, "types.int_unsigned": 7000, "types.double_long": 7000,
-    "range.vector_double": 700, "range.vector_float": 300, "range.list_double": 300, "range.deque_float": 300, "range.vector_value_index": 700,
+    "types.double_unsigned": 3500, "types.double_size_t": 3500, "types.float_int": 3500, "types.int_unsigned": 3500, "types.double_long": 3500,
+    "range.vector_double": 600, "range.vector_float": 300, "range.list_double": 300, "range.deque_float": 300, "range.vector_value_index": 600,
     "cases.rect.big": 24, "cases.rect.thin": 750, "cases.rect.small_ties": 150, "cases.rect.r3x3": 150,
     "_distinct_nontrivial": 50000,
 })
+# input classes added after the audit (about half of what seeds 1..3 measure)
+_NEW_Q = {
+    # Index / Filtration_value types
+    "types.double_unsigned_short": 3500, "types.double_unsigned_char": 3500, "types.double_signed_char": 3500,
+    "types.unsigned_ulonglong": 3500, "types.longlong_unsigned": 3500, "types.only_less_unsigned": 3500,
+    "cases.rect.narrow_index": 350, "inputs.rect.narrow_index_at_capacity": 190,
+    # sides 100..300 (vector-column model), model cross-checks
+    "cases.rect.huge": 30, "model.vector_columns_only": 30, "cmp.model.vector_columns_vs_map_columns": 50,
+    "cmp.model.line_elder_rule_vs_cell_model": 1300000,
+    # build without NDEBUG
+    "build.debug_checks_live.rect": 1300, "build.debug_checks_live.line": 750,
+    # infinite values, signed zeros
+    "inputs.with_pos_inf": 5300, "inputs.with_neg_inf": 5000, "inputs.with_mixed_signed_zeros": 2900,
+    "blocks.with_infinite_levels": 600, "expected.paired_intervals_with_infinite_end": 12000,
+    # line: value types, range kinds, comparators, lengths
+    "inputs.line.integral_value_type": 650, "range.vector_int": 300, "range.vector_long": 350,
+    "range.transformed_counting_range": 340, "range.istream_iterator_range": 350, "range.deque_value_tag": 350,
+    "call.line.value_only_weak_order": 350, "cmp.line.emitted_element_of_input": 350,
+    "inputs.line.len_gt_200": 600, "inputs.line.len_ge_1000": 100,
+    "inputs.line.long.nested": 45, "inputs.line.long.nested_negated": 45, "inputs.line.long.nested_coarse": 45,
+    "inputs.line.long.nested_const_high": 45, "inputs.line.long.nested_const_low": 45, "inputs.line.long.walk": 45,
+    # level maps
+    "level_maps.with_ties": 980000, "level_maps.with_finite_interval": 760000, "level_maps.with_dim1_interval": 85000,
+}
+_q.update(_NEW_Q)
+# thorough: the randomised configs run 50..100 times the quick counts; 10 times the quick floors, except the counters tied to case counts
+_t.update({k: 10 * v for k, v in _NEW_Q.items() if not k.startswith("level_maps.")})
+_t.update({"cases.rect.huge": 450, "model.vector_columns_only": 450, "cmp.model.vector_columns_vs_map_columns": 3000,
+           "cmp.model.line_elder_rule_vs_cell_model": 2500000, "blocks.with_infinite_levels": 1500,
+           "level_maps.with_ties": 20000000, "level_maps.with_finite_interval": 15000000, "level_maps.with_dim1_interval": 2000000})
 _t.update({
     "call.rect.values": 8000000, "call.rect.indices": 8000000, "call.line.less": 500000, "call.line.greater_negated": 500000,
     "call.line.value_index_pair": 500000, "inputs.rect": 500000, "inputs.rect.side_of_2": 50000, "inputs.line": 150000,
